@@ -76,6 +76,12 @@ pub fn knot_spec() -> impl Strategy<Value = KnotSpec> {
         .prop_map(|(k, start_q, interior, last_gap_q)| KnotSpec { k, start_q, interior, last_gap_q, scale_exp: 0 })
 }
 
+/// long knot sequences (a multi-year curve on monthly knots): 58-90 interior knots, mostly simple
+pub fn knot_spec_long() -> impl Strategy<Value = KnotSpec> {
+    (1usize..=6, -20i32..=20, proptest::collection::vec((1u8..=4, prop_oneof![5 => Just(1u8), 1 => 2u8..=3]), 58..=90), 1u8..=4)
+        .prop_map(|(k, start_q, interior, last_gap_q)| KnotSpec { k, start_q, interior, last_gap_q, scale_exp: 0 })
+}
+
 /// as `knot_spec`, with the domain scaled by a power of two in 40% of the draws
 pub fn knot_spec_scaled() -> impl Strategy<Value = KnotSpec> {
     (knot_spec(), prop_oneof![6 => Just(0i16), 2 => -70i16..=-30, 2 => 20i16..=40]).prop_map(|(mut k, e)| {
@@ -124,7 +130,7 @@ pub fn resolve_x(t: &[f64], xs: &XSpec) -> f64 {
 }
 
 fn case_strategy() -> impl Strategy<Value = Case> {
-    (knot_spec_scaled(), proptest::collection::vec(x_spec(), 1..6)).prop_map(|(knots, xs)| Case { knots, xs })
+    (prop_oneof![40 => knot_spec_scaled(), 1 => knot_spec_long()], proptest::collection::vec(x_spec(), 1..6)).prop_map(|(knots, xs)| Case { knots, xs })
 }
 
 /// maximum size of the m-th derivative of p on a span of width h (sum of absolute terms)
@@ -150,6 +156,7 @@ impl Property for C14 {
         v.label_if(c.knots.interior.is_empty(), "knots:no-interior");
         v.label_if(c.knots.scale_exp < 0, "domain:tiny");
         v.label_if(c.knots.scale_exp > 0, "domain:huge");
+        v.label_if(t.len() >= 64, "knots:>=64");
         let last = t[t.len() - 1];
         for xs in &c.xs {
             let x = resolve_x(&t, xs);
@@ -267,7 +274,7 @@ impl Property for C14 {
     }
 
     fn rule(&self) -> String {
-        "random (order k in 1..6, knot sequence with k-fold end knots and 0-8 interior knots on a quarter grid with multiplicity <= max(1, k-1) and spans 0.25..4, the whole sequence scaled by 2^-70..-30 or 2^20..40 in 40% of draws (domains of 1e-18 and of 1e9 such as POSIX timestamps), 1-5 evaluation points drawn exactly on knots, at both end points, at span midpoints, at the doubles adjacent to knots, and uniformly); for every point ALL basis indices i and ALL derivative orders m = 0..k+1 are evaluated. Oracle: Cox-de Boor carried out on polynomial coefficient vectors per knot span (right limit; left limit at the right end point): equality within 1e-10 x the polynomial's size on the span, non-negativity, exact zero outside [t_i, t_(i+k)], sum_i B_i = 1, sum_i B_i^(m) = 0, exact zero for m >= k; the vectorised entry points PPSpline::bspldnev and ::bsplmatrix (all i, m; end-row orders varied) agree bit-for-bit with the scalar functions. Non-trivial: k >= 3 and the point is an interior knot or the right end point.".into()
+        "random (order k in 1..6, knot sequence with k-fold end knots and 0-8 interior knots on a quarter grid with multiplicity <= max(1, k-1) and spans 0.25..4, 2.5% of the sequences are long (58-90 interior knots, 64-190 knots in all); the whole sequence scaled by 2^-70..-30 or 2^20..40 in 40% of draws (domains of 1e-18 and of 1e9 such as POSIX timestamps), 1-5 evaluation points drawn exactly on knots, at both end points, at span midpoints, at the doubles adjacent to knots, and uniformly); for every point ALL basis indices i and ALL derivative orders m = 0..k+1 are evaluated. Oracle: Cox-de Boor carried out on polynomial coefficient vectors per knot span (right limit; left limit at the right end point): equality within 1e-10 x the polynomial's size on the span, non-negativity, exact zero outside [t_i, t_(i+k)], sum_i B_i = 1, sum_i B_i^(m) = 0, exact zero for m >= k; the vectorised entry points PPSpline::bspldnev and ::bsplmatrix (all i, m; end-row orders varied) agree bit-for-bit with the scalar functions. Non-trivial: k >= 3 and the point is an interior knot or the right end point.".into()
     }
 
     fn floors(&self, tier: Tier) -> Vec<Floor> {
@@ -282,6 +289,7 @@ impl Property for C14 {
             Floor { label: "order:6", min: n / 10 },
             Floor { label: "domain:tiny", min: n / 10 },
             Floor { label: "domain:huge", min: n / 10 },
+            Floor { label: "knots:>=64", min: n / 100 },
         ]
     }
 }
